@@ -370,13 +370,97 @@ int main(int argc, char** argv)
 #else
    const bool asan = false;
 #endif
-   Report rep(args, "exploration", thorough ? 3000 : 400);
+   Report rep(args, "exploration", thorough ? 3000 : 600);
    const double MK[] = {0.01, 0.9999, 1e-4, 0.5};   // quick uses the first two
    std::vector<int> A4 = {-1, 0, 1, 2}, A3 = {0, 1, 2}, A3s = {0, 1, -1};
    RunOpts o = rep.opts();
    o.perturb = {85};
    auto sfx = [](uint64_t, uint64_t sub) { return std::string("@variant=") + (sub < (uint64_t)NVARIANT ? VARIANT[sub] : "?"); };
 
+   {
+      // phase 4: structured matrices of dimension 5..40 (thorough) / 5..16 (quick), with a chain of updates
+      int nmax = thorough ? 40 : 16;
+      struct SC { int kind, n, p, utype; double mk; };
+      std::vector<SC> list;
+      for(int kind = 0; kind < 2; ++kind)
+         for(int n = 5; n <= nmax; ++n)
+            for(int p = 0; p < std::min(n, 6); ++p)
+               for(int ut = 0; ut < 2; ++ut)
+                  for(double mk : MK) list.push_back({kind, n, p, ut, mk});
+      rep.phase("structured dim 5.." + std::to_string(nmax), list.size(), [&](uint64_t idx, int, Ctx & c) -> uint64_t
+      {
+         const SC& s = list[idx];
+         Scenario sc;
+         sc.M = structured(s.kind, s.n, s.p);
+         sc.utype = s.utype;
+         sc.markowitz = s.mk;
+         c.count("structured_matrices");
+         uint64_t h = run_scenario(sc, c, false);
+         if(qdet(qmat(sc.M)) == 0) return h;
+         // chain of replacements: column k replaced by e_k + e_{k+1} - e_{k+2} pattern, as long as nonsingular
+         IMat cur = sc.M;
+         for(int k = 0; k < std::min(s.n, 5); ++k)
+         {
+            Update u;
+            u.pos = (k * 3 + s.p) % s.n;
+            u.col.assign(s.n, 0);
+            u.col[u.pos] = 2; u.col[(u.pos + 1) % s.n] = 1; u.col[(u.pos + 2) % s.n] = -1;
+            u.mode = s.utype ? 0 : k % 2;
+            IMat c2 = cur;
+            for(int i = 0; i < s.n; ++i) c2[i][u.pos] = u.col[i];
+            if(qdet(qmat(c2)) == 0) continue;
+            cur = c2;
+            sc.ups.push_back(u);
+            c.count("update_sequences");
+            h = h * 31 + run_scenario(sc, c, false);
+         }
+         return h;
+      }, [&](uint64_t idx, uint64_t) { const SC& s = list[idx]; Scenario sc; sc.M = structured(s.kind, s.n, s.p); sc.utype = s.utype; sc.markowitz = s.mk; return sc.str(); }, o, sfx);
+   }
+   {
+      // phase 5: memory pressure. Start from a diagonal matrix (the factor then reserves its minimal work arrays), replace every column twice in a row, the second time
+      // by a denser vector than the space reserved for it: this drives the update code through its remax / pack (garbage collection) paths - "last in file", "file full",
+      // "move to the end" - which small matrices and short chains never reach. All columns are strictly diagonally dominant (well conditioned by construction).
+      struct MP { int n, ut, k1, k2, shift; };
+      std::vector<MP> list;
+      std::vector<int> dims = thorough ? std::vector<int>{24, 32, 40, 48, 56} : (asan ? std::vector<int>{24} : std::vector<int>{24, 32});
+      for(int n : dims) for(int ut = 0; ut < 2; ++ut) for(int k1 : {1, 3}) for(int k2 : {5, 8, 12}) for(int shift : {1, 5}) list.push_back({n, ut, k1, k2, shift});
+      auto mkcol = [](int n, int pos, int k, int shift, int sign)
+      {
+         std::vector<int> col(n, 0);
+         for(int t = 1; t <= k; ++t) col[(pos + t * shift) % n] += ((t + sign) % 2) ? 1 : -1;
+         col[pos] = 0;
+         int off = 0;
+         for(int v : col) off += v < 0 ? -v : v;
+         col[pos] = off + 2;
+         return col;
+      };
+      rep.phase("memory pressure: diagonal start, every column replaced twice (sparse, then denser)", list.size(), [&](uint64_t idx, int, Ctx & c) -> uint64_t
+      {
+         const MP& s = list[idx];
+         Scenario sc;
+         sc.M.assign(s.n, std::vector<int>(s.n, 0));
+         for(int i = 0; i < s.n; ++i) sc.M[i][i] = 2;
+         sc.utype = s.ut;
+         sc.markowitz = 0.01;
+         uint64_t h = 3;
+         for(int pos = 0; pos < s.n; ++pos)
+         {
+            for(int rnd = 0; rnd < 2; ++rnd)
+            {
+               Update u;
+               u.pos = pos;
+               u.col = mkcol(s.n, pos, rnd ? s.k2 : s.k1, s.shift, rnd);
+               u.mode = s.ut ? 0 : rnd;
+               sc.ups.push_back(u);
+            }
+            c.count("update_sequences");
+            // the chain is checked after every pair of replacements (a damaged factor stays damaged: there is no refactorization in between)
+            if(pos % 2 == 1 || pos == s.n - 1) h = h * 31 + run_scenario(sc, c, false);
+         }
+         return h;
+      }, [&](uint64_t idx, uint64_t) { const MP& s = list[idx]; return "memory-pressure n=" + std::to_string(s.n) + " utype=" + std::to_string(s.ut) + " k1=" + std::to_string(s.k1) + " k2=" + std::to_string(s.k2) + " shift=" + std::to_string(s.shift); }, o, sfx);
+   }
    // phase 1: all 2x2 and 3x3 matrices over {-1,0,1,2}, no updates, both update types, all thresholds
    for(int n = 2; n <= 3; ++n)
    {
@@ -487,52 +571,12 @@ int main(int argc, char** argv)
          return h;
       }, [&](uint64_t idx, uint64_t) { Scenario sc; sc.M = mat_from_index(idx % NM, n, A3s); sc.utype = (idx / NM) % 2; sc.markowitz = 0.01; return sc.str(); }, o, sfx);
    }
-   {
-      // phase 4: structured matrices of dimension 5..40 (thorough) / 5..16 (quick), with a chain of updates
-      int nmax = thorough ? 40 : 16;
-      struct SC { int kind, n, p, utype; double mk; };
-      std::vector<SC> list;
-      for(int kind = 0; kind < 2; ++kind)
-         for(int n = 5; n <= nmax; ++n)
-            for(int p = 0; p < std::min(n, 6); ++p)
-               for(int ut = 0; ut < 2; ++ut)
-                  for(double mk : MK) list.push_back({kind, n, p, ut, mk});
-      rep.phase("structured dim 5.." + std::to_string(nmax), list.size(), [&](uint64_t idx, int, Ctx & c) -> uint64_t
-      {
-         const SC& s = list[idx];
-         Scenario sc;
-         sc.M = structured(s.kind, s.n, s.p);
-         sc.utype = s.utype;
-         sc.markowitz = s.mk;
-         c.count("structured_matrices");
-         uint64_t h = run_scenario(sc, c, false);
-         if(qdet(qmat(sc.M)) == 0) return h;
-         // chain of replacements: column k replaced by e_k + e_{k+1} - e_{k+2} pattern, as long as nonsingular
-         IMat cur = sc.M;
-         for(int k = 0; k < std::min(s.n, 5); ++k)
-         {
-            Update u;
-            u.pos = (k * 3 + s.p) % s.n;
-            u.col.assign(s.n, 0);
-            u.col[u.pos] = 2; u.col[(u.pos + 1) % s.n] = 1; u.col[(u.pos + 2) % s.n] = -1;
-            u.mode = s.utype ? 0 : k % 2;
-            IMat c2 = cur;
-            for(int i = 0; i < s.n; ++i) c2[i][u.pos] = u.col[i];
-            if(qdet(qmat(c2)) == 0) continue;
-            cur = c2;
-            sc.ups.push_back(u);
-            c.count("update_sequences");
-            h = h * 31 + run_scenario(sc, c, false);
-         }
-         return h;
-      }, [&](uint64_t idx, uint64_t) { const SC& s = list[idx]; Scenario sc; sc.M = structured(s.kind, s.n, s.p); sc.utype = s.utype; sc.markowitz = s.mk; return sc.str(); }, o, sfx);
-   }
    rep.evaluations = rep.all.counters["solves"] + rep.all.counters["loads"];
    rep.rule = "case = (matrix, update type, Markowitz threshold, column-replacement sequence, solve variant, right-hand side); every member of "
               "the stated finite families is executed on SLUFactor<double>; non-trivial = a nonsingular (matrix, configuration) pair or a "
               "column-replacement sequence that keeps the matrix nonsingular (each is a distinct enumerated object)";
    rep.assumptions = {"exact reference: Gaussian elimination over GMP rationals on the matrix tracked by the harness",
-                      "tolerance 1e-9 relative (integer matrices with |entries| <= 2, so every exact solution is far from the tolerance)",
+                      "tolerance 1e-9 relative (integer matrices with |entries| <= 2, and strictly diagonally dominant integer matrices in the memory-pressure phase, so every exact solution is far from the tolerance)",
                       "replacements that make the matrix exactly singular are skipped and counted (the simplex never performs them)"
                      };
    rep.finish(rep.all.counters["nonsingular_matrices_x_cfg"] + rep.all.counters["update_sequences"]);
